@@ -27,6 +27,39 @@ pub const O_REWIND: u32 = 1 << 8; // C17
 pub const O_ALL: u32 = 0x1ff;
 /// C04: every access the operation makes to shared memory (atomic accesses, zeroing) lies inside the arena
 pub const O_BOUNDS: u32 = 1 << 9;
+/// C07: the operation returns within a budget of atomic accesses / back-off calls (a single thread has nobody
+/// to wait for: an operation that exceeds the budget never returns)
+pub const O_TERM: u32 = 1 << 10;
+pub const TERM_BUDGET: i64 = 4000;
+
+thread_local! {
+  static TERM_LEFT: std::cell::Cell<i64> = const { std::cell::Cell::new(0) };
+}
+pub struct TermBudget;
+struct TermHook;
+static TERM_HOOK: TermHook = TermHook;
+impl TermHook {
+  fn tick(&self) {
+    let left = TERM_LEFT.with(|c| {
+      c.set(c.get() - 1);
+      c.get()
+    });
+    if left < 0 && !std::thread::panicking() {
+      std::panic::panic_any(TermBudget);
+    }
+  }
+}
+impl rarena_allocator::verif::Hook for TermHook {
+  fn before(&self, _: &rarena_allocator::verif::Event) {
+    self.tick()
+  }
+  fn after(&self, _: &rarena_allocator::verif::Event, _: u64, _: u64, _: bool) {}
+  fn spin(&self, _: bool) {
+    self.tick()
+  }
+  fn plain_write(&self, _: usize, _: usize) {}
+  fn teardown(&self, _: usize, _: usize) {}
+}
 
 thread_local! {
   /// (address, length, is the arena's zeroing write) of every reported access of the current operation
@@ -60,6 +93,7 @@ pub fn prop_of(flag: u32) -> &'static str {
     O_LAYOUT => "C16",
     O_REWIND => "C17",
     O_BOUNDS => "C04",
+    O_TERM => "C07",
     _ => "C??",
   }
 }
@@ -631,6 +665,25 @@ impl<A: Subject> Runner<A> {
 
   /// Execute one operation; `None` when the operation is disabled in this state.
   pub fn step(&mut self, op: Op, or: u32, v: &mut Vec<Viol>) -> Option<Obs> {
+    if or & O_TERM != 0 {
+      TERM_LEFT.with(|c| c.set(TERM_BUDGET));
+      rarena_allocator::verif::install(Some(&TERM_HOOK));
+      let r = std::panic::catch_unwind(std::panic::AssertUnwindSafe(|| self.step_inner(op, or & !O_TERM, v)));
+      rarena_allocator::verif::install(None);
+      return match r {
+        Ok(o) => o,
+        Err(pl) => {
+          if !pl.is::<TermBudget>() {
+            std::panic::resume_unwind(pl);
+          }
+          v.push(Viol { flag: O_TERM, class: "operation-does-not-return".into(), msg: format!("{} performed more than {} atomic accesses / back-off calls without returning (a single thread has nobody to wait for)", op.short(), TERM_BUDGET) });
+          // the arena is in the middle of an operation: the caller rebuilds it
+          self.tainted = true;
+          self.consumed = true;
+          Some(self.obs(Res::Unit))
+        }
+      };
+    }
     if or & O_BOUNDS == 0 {
       return self.step_inner(op, or, v);
     }
